@@ -54,7 +54,7 @@ def run(tier, seed, only=None):
                  "Bounded model checking (Kani/CBMC, SAT) of the compiled opcode tables, jump classification, "
                  "jump-target arithmetic and magic-number mapping against tables generated at check time from the "
                  "installed CPython 3.7-3.12 interpreters; the byte / u32 / (idx,arg) inputs are solver variables over "
-                 "their whole range, per (version, opcode) shape.")
+                 "their whole range, per (version, opcode) shape.", partial=bool(only))
     ref, hist = oracle()
     if len(ref) < 3:
         log("MACHINERY-ERROR: fewer than 3 reference interpreters available")
@@ -89,7 +89,9 @@ def run(tier, seed, only=None):
             # (1) per-name numbers: compile-time constants of the real enum against dis.opmap
             body = "\n".join('        assert!(Opcode%s::%s as u8 == %d, "num-%s: Opcode%s::%s must be %d as in CPython 3.%d");'
                              % (t, n, opmap[n], n, t, n, opmap[n], v) for n, _ in both)
-            body += "\n        kani::cover!(true, \"reach\");"
+            # the witness comes first: a failing assertion cuts the path, and a witness placed after it would turn a
+            # genuine violation into "vacuity witness not reachable"
+            body = "        kani::cover!(true, \"reach\");\n" + body
             hn = Harness(
                 "names_%s_py3%d" % (t, v), body, "Opcode%s/py3.%d/numbers" % (t, v),
                 asserts={"num-" + n: "number equals dis.opmap" for n, _ in both}, covers=["reach"],
@@ -178,7 +180,7 @@ def run(tier, seed, only=None):
         finals = {v: r["magic"] for v, r in ref.items()}
         body = "\n".join('        assert!(get_ver_from_magic_num(%d).minor == Some(%d) && get_ver_from_magic_num(%d).major == 3, "final-3.%d: MAGIC_NUMBER of the installed 3.%d maps to 3.%d");'
                          % (m, v, m, v, v, v) for v, m in sorted(finals.items()))
-        body += '\n        kani::cover!(true, "reach");'
+        body = '        kani::cover!(true, "reach");\n' + body
         kc.add("crates/erg_common/serialize.rs", Harness(
             "magic_finals", body, "get_ver_from_magic_num/finals",
             asserts={"final-3.%d" % v: "installed interpreter's magic number maps to its version" for v in finals},
